@@ -724,4 +724,414 @@ theorem clientTrick_tail (p decl : Seat) (dh0 : List Card) (deal : Hands)
       simp only [List.append_assoc]
       rw [← hK']
 
+/-! ## one trick, the tricks of a board -/
+
+theorem cl_prompt_iff (p a d : Seat) :
+    ((a = p ∧ p ≠ d.partner) ∨ (a = d.partner ∧ p = d)) ↔ p = cardPlayer a d := by
+  cases p <;> cases a <;> cases d <;> decide
+
+theorem cl_parseLeader (a d : Seat) :
+    parseLeader? (if a = d.partner then "Dummy to lead".toList else a.formal ++ " to lead".toList) d.partner =
+      some a := by
+  by_cases h : a = d.partner
+  · rw [if_pos h, h]
+    exact C19.lead_prompt_round_trip none d.partner
+  · rw [if_neg h]
+    exact C19.lead_prompt_round_trip (some a) d.partner
+
+/-- one iteration of the outer loop of `playing_phase`: the lead prompt if the client leads, then four cards -/
+theorem clientPlaying_trick (p decl : Seat) (dh0 : List Card) (deal : Hands)
+    (hdc : (parseCards? (cardsMsg "Dummy".toList (deal decl.partner)) "Dummy".toList).bind parseHand? = some dh0)
+    (rest : List (Card × Text)) (tail : List Text) (cl : List Call) (cd : List Card)
+    (x : Card × Text) (l3 : List (Card × Text)) (hl3 : l3.length = 3) (j : Nat) (hj : j % 4 = 0) (hj52 : j < 52)
+    (w : WithHands) (o : Observed) (opened : Bool) (hI : ClInv p decl dh0 j w o opened)
+    (hyp : PlayHyp p decl w (x :: l3 ++ rest)) (fuel : Nat) :
+    ∃ w' o' opened' X, ClInv p decl dh0 (j + 4) w' o' opened' ∧ PlayHyp p decl w' rest ∧
+      clientPlayingR p decl (fuel + 1) o opened
+          { s := (cardPhases decl deal w.base j (x :: l3 ++ rest)).flatMap (s2cOf p) ++ tail,
+            calls := cl, cards := ownCards p decl w.base (x :: l3 ++ rest) ++ cd } =
+        (clientPlayingR p decl fuel o' opened'
+          { s := (cardPhases decl deal w'.base (j + 4) rest).flatMap (s2cOf p) ++ tail,
+            calls := cl, cards := ownCards p decl w'.base rest ++ cd }).bind (fun r => some (X ++ r.1, r.2)) ∧
+      (cardPhases decl deal w.base j (x :: l3 ++ rest)).flatMap (kOf p) =
+        X ++ (cardPhases decl deal w'.base (j + 4) rest).flatMap (kOf p) := by
+  obtain ⟨c, text⟩ := x
+  obtain ⟨w1, hw, hb1, hparse, hbun, hyp1⟩ := playHyp_cons hyp
+  have hbase : o.base = w.base := hI.rel.base
+  have hlead : decide (w.base.trick = []) = true := by
+    have h1 := hI.pinv.len
+    have : w.base.trick.length = 0 := by omega
+    simpa using List.eq_nil_of_length_eq_zero this
+  obtain ⟨hS, hK⟩ := card_phase_streams p decl deal w.base j c text (l3 ++ rest)
+  simp only [hlead, true_and] at hS hK
+  have hp0 := pendS_ne p decl (cardsMsg "Dummy".toList (deal decl.partner)) (show j ≠ 1 by omega)
+  have hk0 := pendK_ne p decl (show j ≠ 1 by omega)
+  have hp4 := pendS_ne p decl (cardsMsg "Dummy".toList (deal decl.partner)) (show j + 4 ≠ 1 by omega)
+  have hk4 := pendK_ne p decl (show j + 4 ≠ 1 by omega)
+  obtain ⟨o1, hI1, hrun⟩ := clientIter text (cardsMsg "Dummy".toList (deal decl.partner)) 3 hI hdc hw
+    hparse hbun
+    (pendS p decl (cardsMsg "Dummy".toList (deal decl.partner)) (j + 1) ++
+      ((cardPhases decl deal w1.base (j + 1) (l3 ++ rest)).flatMap (s2cOf p) ++ tail)) cl
+    (ownCards p decl w.base ((c, text) :: l3 ++ rest) ++ cd) (ownCards p decl w1.base (l3 ++ rest) ++ cd)
+    (by simp only [List.cons_append, ownCards, hb1, List.append_assoc])
+  obtain ⟨w', o', opened', X, hI', hyp', hrun', hK'⟩ := clientTrick_tail p decl dh0 deal hdc rest tail cl cd
+    l3 1 (j + 1) w1 o1 _ (by omega) (by omega) (by omega) hI1 hyp1
+  have e1 : j + 1 + l3.length = j + 4 := by omega
+  rw [e1, hp4] at hrun'
+  rw [e1, hk4] at hK'
+  rw [e1] at hI'
+  rw [hl3] at hrun'
+  rw [hp0, List.nil_append] at hrun
+  rw [hk0] at hrun
+  have hnd : w.base.hasDone = false := by
+    have := hI.pinv.tn
+    simp [PState.hasDone, this]; omega
+  simp only [Nat.reduceAdd, List.nil_append] at hrun hrun' hK'
+  refine ⟨w', o', opened', (if p = cardPlayer w.base.active decl then [.recv (.s2c p)] else []) ++
+    (cardK p decl w.base text ++ X), hI', hyp', ?_, ?_⟩
+  · rw [List.cons_append, hS, ← hb1]
+    rw [List.cons_append] at hrun
+    by_cases hpl : p = cardPlayer w.base.active decl
+    · have hc : (w.base.active = p ∧ p ≠ decl.partner) ∨ (w.base.active = decl.partner ∧ p = decl) :=
+        (cl_prompt_iff _ _ _).2 hpl
+      simp only [if_pos hpl, List.nil_append] at hrun
+      simp only [clientPlayingR, hbase, hnd, Bool.false_eq_true, if_false, if_pos hc, if_pos hpl, List.cons_append,
+        List.nil_append, List.append_assoc, clientIn_recv_cons, Option.bind_eq_bind, Option.bind_some,
+        cl_parseLeader, if_true, Option.pure_def]
+      rw [hrun, hrun']
+      simp only [Option.bind_some]
+      rcases clientPlayingR p decl fuel o' opened' _ with _ | r
+      · rfl
+      · simp
+    · have hc : ¬ ((w.base.active = p ∧ p ≠ decl.partner) ∨ (w.base.active = decl.partner ∧ p = decl)) :=
+        fun h => hpl ((cl_prompt_iff _ _ _).1 h)
+      simp only [if_neg hpl, List.cons_append, List.nil_append] at hrun
+      simp only [clientPlayingR, hbase, hnd, Bool.false_eq_true, if_false, if_neg hc, if_neg hpl, List.cons_append,
+        List.nil_append, List.append_assoc, Option.bind_eq_bind, Option.bind_some, Option.pure_def]
+      rw [hrun, hrun']
+      simp only [Option.bind_some]
+      rcases clientPlayingR p decl fuel o' opened' _ with _ | r
+      · rfl
+      · simp
+  · rw [List.cons_append, hK, ← hb1, hK']
+    simp only [List.append_assoc]
+
+/-- `n` whole tricks, down to the end of the play -/
+theorem clientPlaying_tricks (p decl : Seat) (dh0 : List Card) (deal : Hands)
+    (hdc : (parseCards? (cardsMsg "Dummy".toList (deal decl.partner)) "Dummy".toList).bind parseHand? = some dh0)
+    (tail : List Text) (cl : List Call) (cd : List Card) :
+    ∀ (n : Nat) (l : List (Card × Text)) (j : Nat) (w : WithHands) (o : Observed) (opened : Bool) (fuel : Nat),
+    l.length = 4 * n → j + 4 * n = 52 → n < fuel → ClInv p decl dh0 j w o opened → PlayHyp p decl w l →
+    ∃ o', clientPlayingR p decl fuel o opened
+        { s := (cardPhases decl deal w.base j l).flatMap (s2cOf p) ++ tail,
+          calls := cl, cards := ownCards p decl w.base l ++ cd } =
+      some ((cardPhases decl deal w.base j l).flatMap (kOf p), o', { s := tail, calls := cl, cards := cd }) := by
+  intro n
+  induction n with
+  | zero =>
+    intro l j w o opened fuel hl hj hf hI _
+    have : l = [] := List.eq_nil_of_length_eq_zero (by simpa using hl)
+    subst this
+    obtain ⟨fuel, rfl⟩ : ∃ f, fuel = f + 1 := ⟨fuel - 1, by omega⟩
+    have hd : o.base.hasDone = true := by
+      rw [hI.rel.base]
+      have := hI.pinv.tn
+      simp [PState.hasDone, this]; omega
+    exact ⟨o, by simp [clientPlayingR, hd, cardPhases, ownCards]⟩
+  | succ n ih =>
+    intro l j w o opened fuel hl hj hf hI hyp
+    obtain ⟨fuel, rfl⟩ : ∃ f, fuel = f + 1 := ⟨fuel - 1, by omega⟩
+    match l, hl, hyp with
+    | x1 :: x2 :: x3 :: x4 :: rest, hl, hyp =>
+      obtain ⟨w', o', opened', X, hI', hyp', hrun, hK⟩ := clientPlaying_trick p decl dh0 deal hdc rest tail cl cd
+        x1 [x2, x3, x4] rfl j (by omega) (by omega) w o opened hI hyp fuel
+      obtain ⟨of, hrec⟩ := ih rest (j + 4) w' o' opened' fuel (by simp at hl; omega) (by omega) (by omega) hI' hyp'
+      refine ⟨of, ?_⟩
+      simp only [List.cons_append, List.nil_append] at hrun hK
+      rw [hrun, hrec, hK]
+      rfl
+
+/-! ## the play of a board -/
+
+/-- the board's hands with `p`'s and dummy's as the client parsed them -/
+def clHands (p decl : Seat) (hand dh0 : List Card) (deal : Hands) : Hands :=
+  fun q => if q = p then hand else if q = decl.partner then dh0 else deal q
+
+theorem clientPlay_board (p : Seat) (b : BoardSetting) (d : Decisions)
+    (hcp : ConformingPlay b d) (htx : TextsConform b d) (hbun : BundledBoard p b d)
+    (s0 : PState) (decl : Seat) (hs0 : PState.init (boardContract b d) = some s0)
+    (hdecl : (boardContract b d).declarer = some decl)
+    (hand dh0 : List Card) (hhand : hand.Perm (b.deal p)) (hdh : dh0.Perm (b.deal decl.partner))
+    (hdc : (parseCards? (cardsMsg "Dummy".toList (b.deal decl.partner)) "Dummy".toList).bind parseHand? = some dh0)
+    (tail : List Text) (cl : List Call) (cd : List Card) :
+    ∃ o', clientPlayingR p decl 14 { base := s0, me := p, hand := hand, dummyHand := none } false
+        { s := (cardPhases decl b.deal s0 0 d.cards).flatMap (s2cOf p) ++ tail,
+          calls := cl, cards := ownCards p decl s0 d.cards ++ cd } =
+      some ((cardPhases decl b.deal s0 0 d.cards).flatMap (kOf p), o', { s := tail, calls := cl, cards := cd }) := by
+  obtain ⟨bb, dd, hfb, hd, hs0eq⟩ := init_some hs0
+  have hdd : dd = decl := by rw [hd] at hdecl; exact Option.some.inj hdecl
+  subst hdd
+  have hw0 : WithHands.init (boardContract b d) b.deal = some ⟨s0, b.deal⟩ := by
+    simp [WithHands.init, hs0]
+  unfold ConformingPlay at hcp
+  rw [hw0] at hcp
+  obtain ⟨h52, hacc⟩ := hcp
+  have hperm : WPerm ⟨s0, b.deal⟩ ⟨s0, clHands p dd hand dh0 b.deal⟩ := by
+    refine ⟨rfl, fun q => ?_⟩
+    show (clHands p dd hand dh0 b.deal q).Perm (b.deal q)
+    unfold clHands
+    by_cases h1 : q = p
+    · rw [if_pos h1, h1]; exact hhand
+    · rw [if_neg h1]
+      by_cases h2 : q = dd.partner
+      · rw [if_pos h2, h2]; exact hdh
+      · rw [if_neg h2]
+  have hyp : PlayHyp p dd ⟨s0, clHands p dd hand dh0 b.deal⟩ d.cards :=
+    ⟨htx.cards s0 hs0, wperm_accepted _ _ _ hperm hacc, hbun.2 s0 dd hs0 hdecl⟩
+  have hI : ClInv p dd dh0 0 ⟨s0, clHands p dd hand dh0 b.deal⟩
+      { base := s0, me := p, hand := hand, dummyHand := none } false := by
+    refine ⟨⟨rfl, ?_, fun dh h => by cases h⟩, rfl, by rw [hs0eq], pinv_init hs0, fun _ => rfl,
+      fun _ => by rw [hs0eq], fun h => by omega, rfl, fun _ => ⟨rfl, fun hp => ?_⟩, fun h => by omega⟩
+    · show hand = clHands p dd hand dh0 b.deal p
+      simp [clHands]
+    · show clHands p dd hand dh0 b.deal dd.partner = dh0
+      have : ¬ dd.partner = p := fun e => hp e.symm
+      simp [clHands, this]
+  exact clientPlaying_tricks p dd dh0 b.deal hdc tail cl cd 13 d.cards 0 _ _ false 14 (by omega) (by omega)
+    (by omega) hI hyp
+
+/-! ## one board -/
+
+/-- the last phase of a board -/
+def clFinalPhase (sc : Scenario) (last : Bool) (b : BoardSetting) (d : Decisions) : Phase Text LogOp :=
+  if last then Phase.lastBoard (LogOp.write (recordOf sc b d)) LogOp.close MSG_END
+  else Phase.nextBoard (LogOp.write (recordOf sc b d)) MSG_NEXT MSG_START
+
+/-- the phases of the play of a board -/
+def clPlayPhases (b : BoardSetting) (d : Decisions) : List (Phase Text LogOp) :=
+  match PState.init (boardContract b d), (boardContract b d).declarer with
+  | some s0, some decl => Phase.playStart decl.formal :: cardPhases decl b.deal s0 0 d.cards
+  | _, _ => []
+
+theorem cl_boardPhases_eq (sc : Scenario) (k : Nat) (last : Bool) (b : BoardSetting) (d : Decisions) :
+    boardPhases sc k last b d =
+      Phase.deal (boardHeader k b.dealer b.vul) (fun p => cardsMsg p.formal (b.deal p))
+        (fun p => readyFor p "deal".toList) (fun p => readyFor p "cards".toList) ::
+      (callPhases b.dealer 0 d.calls ++
+      (Phase.auctionEnd MSG_NULL (if (boardContract b d).isPassedOut then MSG_PASSED_OUT else MSG_NULL) ::
+      (clPlayPhases b d ++ [clFinalPhase sc last b d]))) := by
+  simp only [boardPhases, boardContract, clFinalPhase, clPlayPhases, List.append_assoc, List.cons_append,
+    List.nil_append]
+  rfl
+
+theorem s2cOf_clFinal (sc : Scenario) (p : Seat) (last : Bool) (b : BoardSetting) (d : Decisions) :
+    s2cOf p (clFinalPhase sc last b d) = [if last then MSG_END else MSG_START] := by
+  cases last <;> simp [clFinalPhase]
+theorem kOf_clFinal (sc : Scenario) (p : Seat) (last : Bool) (b : BoardSetting) (d : Decisions) :
+    kOf p (clFinalPhase sc last b d) = [.recv (.s2c p)] := by
+  cases last <;> rfl
+
+theorem cl_msg_facts : MSG_START ≠ MSG_END := by decide
+
+theorem clientBoardsR_board (sc : Scenario) (p : Seat) (k : Nat) (last : Bool) (b : BoardSetting) (d : Decisions)
+    (hca : ConformingAuction b d) (hcp : ConformingPlay b d) (htx : TextsConform b d) (hbun : BundledBoard p b d)
+    (hok : ∀ q, HandOK (b.deal q)) (fuel : Nat) (tail : List Text) (cl : List Call) (cd : List Card) :
+    clientBoardsR p (fuel + 1)
+        { s := (boardPhases sc k last b d).flatMap (s2cOf p) ++ tail,
+          calls := ownCalls p b.dealer 0 d.calls ++ cl, cards := boardOwnCards p b d ++ cd } =
+      if last then some ((boardPhases sc k last b d).flatMap (kOf p), { s := tail, calls := cl, cards := cd })
+      else (clientBoardsR p fuel { s := tail, calls := cl, cards := cd }).map fun r =>
+        ((boardPhases sc k last b d).flatMap (kOf p) ++ r.1, r.2) := by
+  obtain ⟨hand, hhparse, hhperm⟩ := hand_parse p.formal (b.deal p) (hok p)
+  have hbc := boardContract_conforming b d hca
+  obtain ⟨hll, hel⟩ := hca
+  have hleg : Legal b.dealer (d.calls.map (·.1)).reverse := (legal_iff_legalLaw _ _).2 hll
+  have hov : over (d.calls.map (·.1)).reverse = true := over_of_ended_law _ hel
+  have hlen : d.calls.length ≤ 319 := by
+    have := legal_length_le_319 _ _ hleg
+    simpa using this
+  rw [cl_boardPhases_eq]
+  simp only [List.flatMap_cons, List.flatMap_append, List.flatMap_nil, s2cOf_deal, s2cOf_auctionEnd,
+    s2cOf_clFinal, List.append_assoc, List.cons_append, List.nil_append]
+  have hkdeal : kOf p (Phase.deal (boardHeader k b.dealer b.vul) (fun p => cardsMsg p.formal (b.deal p))
+        (fun p => readyFor p "deal".toList) (fun p => readyFor p "cards".toList)) =
+      [.send (.c2s p) (readyFor p "deal".toList), .recv (.s2c p),
+       .send (.c2s p) (readyFor p "cards".toList), .recv (.s2c p)] := rfl
+  have hkend : ∀ x y : Text, kOf p (Phase.auctionEnd x y) = [] := fun _ _ => rfl
+  rw [hkdeal, hkend, kOf_clFinal]
+  rw [clientBoardsR]
+  simp only [Option.bind_eq_bind, clientDealR_run p k b hand hhparse, Option.bind_some]
+  rcases specContract_shape b.dealer b.vul (d.calls.map (·.1)).reverse with ⟨hf, hd⟩ | ⟨bi, decl, hf, hd⟩
+  · rw [← hbc] at hf hd
+    have hpo : (boardContract b d).isPassedOut = true := by simp [Contract.isPassedOut, hf]
+    have hinit : PState.init (boardContract b d) = none := by simp [PState.init, hf]
+    have hplay : clPlayPhases b d = [] := by simp [clPlayPhases, hinit]
+    have hown : boardOwnCards p b d = [] := by simp [boardOwnCards, hinit]
+    rw [hplay, hown]
+    simp only [List.flatMap_nil, List.nil_append]
+    obtain ⟨sf, hisf, hbid⟩ := clientBidding_run p b.dealer b.vul
+      ((if last = true then MSG_END else MSG_START) :: tail) cl cd
+      d.calls 0 (AState.init b.dealer b.vul) [] (320 + 1) (ainv_init _ _) rfl (by simpa using hleg)
+      (by simpa using hov) (fun j hj => by simpa using htx.calls j hj)
+      (fun j hj e => hbun.1 j hj (by simpa using e)) (by omega)
+    simp only [List.append_nil] at hisf
+    have hcon : sf.contract = some (boardContract b d) := by
+      rw [hbc]; exact C03.contract_is_spec _ _ _ _ ⟨hisf, hleg⟩ hel
+    rw [hbid]
+    simp only [Option.bind_some, hcon, hpo, if_true, Option.pure_def, clientIn_recv_cons]
+    cases last
+    · simp only [Bool.false_eq_true, if_false, if_neg cl_msg_facts, if_true]
+      rcases clientBoardsR p fuel _ with _ | r
+      · rfl
+      · simp
+    · simp
+  · rw [← hbc] at hf hd
+    have hpo : (boardContract b d).isPassedOut = false := by simp [Contract.isPassedOut, hf]
+    obtain ⟨s0, hs0, -⟩ := C04.opening_lead_and_dummy (boardContract b d) bi decl hf hd
+    have hplay : clPlayPhases b d = Phase.playStart decl.formal :: cardPhases decl b.deal s0 0 d.cards := by
+      simp [clPlayPhases, hs0, hd]
+    have hown : boardOwnCards p b d = ownCards p decl s0 d.cards := by simp [boardOwnCards, hs0, hd]
+    obtain ⟨dh0, hdc, hdperm⟩ := hand_parse "Dummy".toList (b.deal decl.partner) (hok decl.partner)
+    have hoinit : Observed.init (boardContract b d) p hand =
+        some { base := s0, me := p, hand := hand, dummyHand := none } := by
+      simp [Observed.init, hs0]
+    rw [hplay, hown]
+    have hkps : kOf p (Phase.playStart decl.formal) = [] := rfl
+    simp only [List.flatMap_cons, s2cOf_playStart, hkps, List.nil_append]
+    obtain ⟨sf, hisf, hbid⟩ := clientBidding_run p b.dealer b.vul
+      ((cardPhases decl b.deal s0 0 d.cards).flatMap (s2cOf p) ++
+        ((if last = true then MSG_END else MSG_START) :: tail)) cl (ownCards p decl s0 d.cards ++ cd)
+      d.calls 0 (AState.init b.dealer b.vul) [] (320 + 1) (ainv_init _ _) rfl (by simpa using hleg)
+      (by simpa using hov) (fun j hj => by simpa using htx.calls j hj)
+      (fun j hj e => hbun.1 j hj (by simpa using e)) (by omega)
+    simp only [List.append_nil] at hisf
+    have hcon : sf.contract = some (boardContract b d) := by
+      rw [hbc]; exact C03.contract_is_spec _ _ _ _ ⟨hisf, hleg⟩ hel
+    obtain ⟨of, hpl⟩ := clientPlay_board p b d hcp htx hbun s0 decl hs0 hd hand dh0 hhperm hdperm hdc
+      ((if last = true then MSG_END else MSG_START) :: tail) cl cd
+    rw [hbid]
+    simp only [Option.bind_some, hcon, hpo, Bool.false_eq_true, if_false, hd, hoinit, hpl,
+      Option.pure_def, clientIn_recv_cons]
+    cases last
+    · simp only [Bool.false_eq_true, if_false, if_neg cl_msg_facts, if_true]
+      rcases clientBoardsR p fuel _ with _ | r
+      · rfl
+      · simp
+    · simp
+
+/-! ## the boards of a session -/
+
+/-- what is assumed of a board -/
+def BoardOK (p : Seat) (b : BoardSetting) (d : Decisions) : Prop :=
+  ConformingAuction b d ∧ ConformingPlay b d ∧ TextsConform b d ∧ BundledBoard p b d ∧ ∀ q, HandOK (b.deal q)
+
+theorem cl_boardPhases_s_length (sc : Scenario) (p : Seat) (k : Nat) (last : Bool) (b : BoardSetting)
+    (d : Decisions) : 1 ≤ ((boardPhases sc k last b d).flatMap (s2cOf p)).length := by
+  rw [cl_boardPhases_eq]
+  simp only [List.flatMap_cons, s2cOf_deal, List.length_append, List.length_cons]
+  omega
+
+theorem cl_boardsPhases_s_length (sc : Scenario) (p : Seat) :
+    ∀ (boards : List (BoardSetting × Decisions)) (k : Nat),
+    boards.length ≤ ((boardsPhases sc k boards).flatMap (s2cOf p)).length := by
+  intro boards
+  induction boards with
+  | nil => intro k; simp
+  | cons x r ih =>
+    intro k
+    obtain ⟨b, d⟩ := x
+    cases r with
+    | nil => simpa [boardsPhases] using cl_boardPhases_s_length sc p k true b d
+    | cons y r' =>
+      have h1 := ih (k + 1)
+      have h2 := cl_boardPhases_s_length sc p k false b d
+      rw [boardsPhases, List.flatMap_append, List.length_append]
+      · simp only [List.length_cons] at h1 ⊢; omega
+      · simp
+
+theorem clientBoardsR_boards (sc : Scenario) (p : Seat) (tail : List Text) (cl : List Call) (cd : List Card) :
+    ∀ (boards : List (BoardSetting × Decisions)) (k fuel : Nat), boards ≠ [] →
+      (∀ bd ∈ boards, BoardOK p bd.1 bd.2) → boards.length ≤ fuel →
+      clientBoardsR p fuel
+          { s := (boardsPhases sc k boards).flatMap (s2cOf p) ++ tail,
+            calls := (boards.flatMap fun bd => ownCalls p bd.1.dealer 0 bd.2.calls) ++ cl,
+            cards := (boards.flatMap fun bd => boardOwnCards p bd.1 bd.2) ++ cd } =
+        some ((boardsPhases sc k boards).flatMap (kOf p), { s := tail, calls := cl, cards := cd }) := by
+  intro boards
+  induction boards with
+  | nil => intro k fuel h; exact absurd rfl h
+  | cons x r ih =>
+    intro k fuel _ hp hf
+    obtain ⟨b, d⟩ := x
+    obtain ⟨f, rfl⟩ : ∃ f, fuel = f + 1 := ⟨fuel - 1, by simp at hf; omega⟩
+    obtain ⟨h1, h2, h3, h4, h5⟩ := hp (b, d) List.mem_cons_self
+    cases r with
+    | nil =>
+      simp only [boardsPhases, List.flatMap_cons, List.flatMap_nil, List.append_nil]
+      rw [clientBoardsR_board sc p k true b d h1 h2 h3 h4 h5]
+      simp
+    | cons y r' =>
+      have ih := ih (k + 1) f (by simp) (fun bd h => hp bd (List.mem_cons_of_mem _ h))
+        (by simp at hf ⊢; omega)
+      rw [boardsPhases]
+      · generalize y :: r' = R at ih ⊢
+        simp only [List.flatMap_cons, List.flatMap_append, List.append_assoc]
+        rw [clientBoardsR_board sc p k false b d h1 h2 h3 h4 h5, ih]
+        simp
+      · simp
+
+/-! ## the session -/
+
+/-- fed the messages the seat thread of `p` sends it in a session (conforming decisions, texts that mean what was
+decided, `p`'s own texts those of the bundled client, valid duplicate-free hands, team names without quote / line
+break) and the decisions its bidding and playing systems return, the reactive bundled client performs exactly the
+straight-line client program of the session model -/
+theorem clientReactive_session_of_handOK (sc : Scenario) (h : sc.boards ≠ []) (p : Seat)
+    (hc : ∀ bd ∈ sc.boards, ConformingAuction bd.1 bd.2 ∧ ConformingPlay bd.1 bd.2 ∧ TextsConform bd.1 bd.2)
+    (hb : BundledTexts sc p)
+    (hd : ∀ bd ∈ sc.boards, ∀ q, HandOK (bd.1.deal q))
+    (hn : NameOK sc.nsName ∧ NameOK sc.ewName) :
+    clientReactive p (scenarioOwnCalls sc p) (scenarioOwnCards sc p)
+        (sendsOn (Chan.s2c p) (sessionProg sc (.seat p)))
+      = some (sessionProg sc (.client p)) := by
+  have hs : sendsOn (Chan.s2c p) (sessionProg sc (.seat p)) =
+      teamsMsg sc.nsName sc.ewName :: MSG_START :: (boardsPhases sc 1 sc.boards).flatMap (s2cOf p) := by
+    unfold sessionProg sessionPhases
+    rw [sendsOn_progOfPhases, List.flatMap_cons]
+    show s2cOf p _ ++ List.flatMap (s2cOf p) _ = _
+    rw [s2cOf_seating]; rfl
+  have hk : sessionProg sc (.client p) =
+      [.recv (.s2c p), .send (.c2s p) (p.formal ++ " ready to start".toList), .recv (.s2c p)] ++
+        (boardsPhases sc 1 sc.boards).flatMap (kOf p) := by
+    unfold sessionProg sessionPhases progOfPhases
+    rw [List.flatMap_cons]
+    rfl
+  have hrun := clientBoardsR_boards sc p [] [] [] sc.boards 1
+    ((teamsMsg sc.nsName sc.ewName :: MSG_START :: (boardsPhases sc 1 sc.boards).flatMap (s2cOf p)).length + 1) h
+    (fun bd hbd => ⟨(hc bd hbd).1, (hc bd hbd).2.1, (hc bd hbd).2.2, hb bd hbd, hd bd hbd⟩)
+    (by have := cl_boardsPhases_s_length sc p sc.boards 1; simp only [List.length_cons]; omega)
+  simp only [List.append_nil] at hrun
+  rw [hs, hk]
+  simp only [clientReactive, clientIn_recv_cons, Option.bind_eq_bind, Option.bind_some,
+    C19.team_names_round_trip _ _ hn.1 hn.2, if_true, scenarioOwnCalls, scenarioOwnCards, hrun, Option.pure_def]
+
+/-- the same with the hypothesis on the deals in the form used for the bundled scenarios (`bundled_conform`) -/
+theorem clientReactive_session (sc : Scenario) (h : sc.boards ≠ []) (p : Seat)
+    (hc : ∀ bd ∈ sc.boards, ConformingAuction bd.1 bd.2 ∧ ConformingPlay bd.1 bd.2 ∧ TextsConform bd.1 bd.2)
+    (hb : BundledTexts sc p)
+    (hd : ∀ bd ∈ sc.boards, PartialDeal bd.1.deal ∧ ∀ q, (bd.1.deal q).length = 13)
+    (hn : NameOK sc.nsName ∧ NameOK sc.ewName) :
+    clientReactive p (scenarioOwnCalls sc p) (scenarioOwnCards sc p)
+        (sendsOn (Chan.s2c p) (sessionProg sc (.seat p)))
+      = some (sessionProg sc (.client p)) := by
+  refine clientReactive_session_of_handOK sc h p hc hb (fun bd hbd q => ?_) hn
+  obtain ⟨⟨hnd, hok, _⟩, _⟩ := hd bd hbd
+  refine ⟨?_, hok q⟩
+  unfold handsAll at hnd
+  cases q
+  · exact (List.nodup_append.1 (List.nodup_append.1 (List.nodup_append.1 hnd).1).1).1
+  · exact (List.nodup_append.1 (List.nodup_append.1 (List.nodup_append.1 hnd).1).1).2.1
+  · exact (List.nodup_append.1 (List.nodup_append.1 hnd).1).2.1
+  · exact (List.nodup_append.1 hnd).2.1
+
 end Bridge
